@@ -60,6 +60,9 @@ func judgeEnd(def *dagDef, o endObservation, id8 string, m markers, finalAfter b
 		// "no live run on the socket" is a truthful answer of the socket probe once the end is on record
 		return state, true
 	}
+	if o.via == "GetCurrentStatus" && st.RequestID == "" {
+		return "no-live-run", false
+	}
 	if !mine {
 		state += "(other-run)"
 	}
